@@ -188,6 +188,14 @@ func (a *AliasStorage) Remove(ctx context.Context, m nodeenrollment.MessageWithI
 	return a.Storage.Remove(ctx, m)
 }
 
+// LoadByNodeId forwards to the inner back end when that one looks records up by node id itself.
+func (a *AliasStorage) LoadByNodeId(ctx context.Context, m nodeenrollment.MessageWithNodeId) error {
+	if n, ok := a.Storage.(nodeenrollment.NodeIdLoader); ok {
+		return n.LoadByNodeId(ctx, m)
+	}
+	return nodeenrollment.ErrNotFound
+}
+
 func (a *AliasStorage) Load(ctx context.Context, m nodeenrollment.MessageWithId) error {
 	if t, ok := m.(*types.ServerLedActivationToken); ok {
 		if src, ok := a.TokenAlias[t.Id]; ok {
